@@ -21,6 +21,17 @@ func (o RunOpt) String() string {
 	if o.GC {
 		return "GC()"
 	}
+	if o.Reload {
+		return "Reload()"
+	}
+	if o.Write != "" {
+		return "edit " + o.Write
+	}
+	if len(o.Fail) > 0 {
+		b := o
+		b.Fail = nil
+		return b.String() + fmt.Sprintf(" with failing %v", o.Fail)
+	}
 	if o.Repl {
 		kw := ""
 		if o.AlwaysSet {
@@ -195,8 +206,29 @@ func runMulti(r *runner, prop string, h *History) ([]violation, *stats) {
 	}
 	executedBefore := map[string]bool{} // bodies executed by earlier runs of this process
 	hadGC := false
+	var failedBefore []string // bodies that failed in the previous real run (for a reason that is no tracked input)
+	settled := false          // the previous real run succeeded and the project was reloaded since: nothing is out of date
+	lastRealOK := false
+	var dryV []string // what the previous run announced, if it was a dry run without Always of the same target
+	haveDry := false
 	for i, seg := range splitRuns(o, len(h.Runs)) {
 		ro := h.Runs[i]
+		if ro.Write != "" {
+			if seg.Err != "ok" {
+				viol("harness", i, "edit of %s: %s", ro.Write, seg.Err)
+			}
+			p.Files[ro.Write] = ro.Text
+			settled, lastRealOK, haveDry = false, false, false
+			continue
+		}
+		if ro.Reload {
+			if seg.Err != "ok" {
+				viol("reload-fails", i, "Reload() on the loaded project failed: %s", seg.Err)
+			}
+			settled = lastRealOK
+			executedBefore = map[string]bool{}
+			continue
+		}
 		if ro.GC {
 			hadGC = true
 			st.GCs++
@@ -219,16 +251,53 @@ func runMulti(r *runner, prop string, h *History) ([]violation, *stats) {
 				announced = append(announced, l)
 			}
 		}
-		if seg.Err != "ok" {
+		if seg.Err != "ok" && len(ro.Fail) == 0 {
 			viol("same-process-run-fails", i, "run %d (%v) of the sequence failed", i, ro)
+		}
+		if !dry {
+			// C03: what failed in the previous run of this process is executed again once the cause is gone
+			if len(ro.Fail) == 0 && seg.Err == "ok" {
+				ex := setOf(seg.Exec)
+				for _, l := range failedBefore {
+					if !ex[l] {
+						viol("unfinished-not-rerun", i, "the body of %s failed in the previous run of this process (a cause that is no tracked input, repaired since); run %d (%v) on the same loaded project succeeded without executing it", l, i, ro)
+					}
+				}
+			}
+			failedBefore = nil
+			for _, l := range ro.Fail {
+				if setOf(seg.Exec)[l] {
+					failedBefore = append(failedBefore, l)
+				}
+			}
+			// C02: after a successful run and a Reload nothing is out of date
+			if settled && !always {
+				allowed := alwaysDownstream(p, h.RunTarget)
+				for _, l := range seg.Exec {
+					if !allowed[l] {
+						viol("spurious-rebuild", i, "run %d (%v) follows a successful run and a Reload() of the unchanged project, yet the body of %s executed", i, ro, l)
+					}
+				}
+			}
+			settled = false
+			lastRealOK = seg.Err == "ok"
 		}
 		if dry {
 			st.DryRuns++
 			if len(seg.Exec) > 0 {
 				viol("dry-executes", i, "run %d is %v (a dry run) and executed bodies: %v", i, ro, seg.Exec)
 			}
+			dryV, haveDry = sortedCopy(seg.V), !always && ro.Target == "" && seg.Err == "ok"
 			continue
 		}
+		// C13: the real run right after a dry run, on the same loaded project, attempts what the dry run announced
+		if prop == "C13" && haveDry && !always && ro.Target == "" && len(ro.Fail) == 0 && seg.Err == "ok" {
+			st.DryPredicted++
+			if rv := sortedCopy(seg.V); !reflect.DeepEqual(dryV, rv) {
+				viol("dry-mispredicts", i, "run %d (a dry run) announced %v as evaluating; run %d (%v), the real run that follows it on the same loaded project, evaluated %v", i-1, dryV, i, ro, rv)
+			}
+		}
+		haveDry = false
 		if !reflect.DeepEqual(sortedCopy(seg.Exec), sortedCopy(announced)) {
 			viol("run-ignores-its-options", i, "run %d is %v (not a dry run) on the same loaded project after %v: it announced %v as evaluating and executed the bodies %v",
 				i, ro, h.Runs[:i], sortedCopy(announced), sortedCopy(seg.Exec))
@@ -273,7 +342,7 @@ func runMulti(r *runner, prop string, h *History) ([]violation, *stats) {
 		}
 	}
 	// C01: at the end of the process the generated files are those of a from-scratch build
-	if prop == "C01" && len(viols) == 0 {
+	if (prop == "C01" || prop == "C03" || (prop == "C13" && len(h.Ops) > 0)) && len(viols) == 0 && lastRealOK {
 		targets := map[string]bool{}
 		for _, ro := range h.Runs {
 			if _, dry := ro.effective(); dry || ro.GC {
@@ -366,6 +435,139 @@ func replHistories(r *rng) []*History {
 			out = append(out, &History{Template: "C13 REPL: " + ro.String(), Proj: p.clone(), Runs: []RunOpt{ro}, RunTarget: root})
 			out = append(out, &History{Template: "C13 REPL: " + ro.String() + " then Run(nil)", Proj: p.clone(), Runs: []RunOpt{ro, {Nil: true}}, RunTarget: root})
 		}
+	}
+	return out
+}
+
+// dryThenRealHistories (C01): one loaded project, a dry run (or a forced one) and then a run with nil / empty options,
+// on a fresh project and after an edit that leaves targets out of date: the last real run must leave the generated files
+// a from-scratch build leaves (a Run that silently inherits the previous Run's options does not)
+func dryThenRealHistories(r *rng, nproj int) []*History {
+	var out []*History
+	seqs := [][]RunOpt{
+		{{Dry: true}, {Nil: true}},
+		{{Always: true, Dry: true}, {Nil: true}},
+		{{Dry: true}, {}},
+		{{Repl: true, DrySet: true, Dry: true}, {Nil: true}},
+	}
+	for pi := 0; pi < nproj; pi++ {
+		p := genProj(r, 0)
+		root := p.topRoot()
+		for _, s := range seqs {
+			seq := append([]RunOpt{}, s...)
+			if seq[0].Repl {
+				seq[0].Target = root
+			}
+			out = append(out, &History{Template: "C01 same process (fresh project): " + fmt.Sprint(seq), Proj: p.clone(), Runs: seq, RunTarget: root})
+		}
+		// after an earlier build and an edit
+		g := &gen{r: r, p: p.clone(), h: &History{Proj: p.clone(), Template: "C01 same process (after a build and an edit): [{DryRun} nil]"}, collected: map[string]bool{}}
+		g.add(g.build(root))
+		if t := g.p.tgt(root); t != nil {
+			g.semanticEdit(t)
+		}
+		g.h.Runs, g.h.RunTarget = []RunOpt{{Dry: true}, {Nil: true}}, root
+		out = append(out, g.h)
+	}
+	return out
+}
+
+// editThenDryHistories (C13): earlier processes build the root; an input changes; then ONE process makes a dry run and a
+// real run: the real run attempts what the dry run announced and leaves the from-scratch outputs (a dry run that marks
+// what it looked at as seen makes the real run skip it)
+func editThenDryHistories(r *rng, n int) []*History {
+	var out []*History
+	for tries := 0; len(out) < n && tries < 10*n; tries++ {
+		p := genProj(r, 0)
+		g := &gen{r: r, p: p.clone(), h: &History{Proj: p, Template: "C13 same process after an edit: dry run, then the real run"}, collected: map[string]bool{}}
+		t, d := g.chainPick()
+		if t == nil || t.Always {
+			continue
+		}
+		root := g.rootOver(d)
+		g.add(g.build(root))
+		fs := g.p.sourceFilesOf(t)
+		if len(fs) > 0 && len(out)%3 != 2 {
+			f := fs[r.below(len(fs))]
+			g.edit(Edit{Kind: "content", Path: f, Text: g.p.Files[f] + "edited before the dry run\n"})
+		} else {
+			g.semanticEdit(t)
+		}
+		second := RunOpt{Nil: true}
+		if len(out)%2 == 1 {
+			second = RunOpt{}
+		}
+		g.h.Runs, g.h.RunTarget = []RunOpt{{Dry: true}, second}, root
+		out = append(out, g.h)
+	}
+	return out
+}
+
+// editReloadHistories (C01): watch mode with an edit: Load, Run, the user edits a source, Reload(), Run(nil), all in one
+// process: the last run leaves the from-scratch outputs (anything remembered across Reload about a file is stale)
+func editReloadHistories(r *rng, n int) []*History {
+	var out []*History
+	for tries := 0; len(out) < n && tries < 10*n; tries++ {
+		p := genProj(r, 0)
+		g := &gen{r: r, p: p.clone(), collected: map[string]bool{}}
+		t, d := g.chainPick()
+		if t == nil || t.Always {
+			continue
+		}
+		var plain []string
+		for _, f := range p.sourceFilesOf(t) {
+			if _, ok := p.Files[f]; ok && !p.isGenerated(f) {
+				plain = append(plain, f)
+			}
+		}
+		if len(plain) == 0 {
+			continue
+		}
+		f := plain[r.below(len(plain))]
+		root := g.rootOver(d)
+		seq := []RunOpt{{Nil: true}, {Write: f, Text: p.Files[f] + "edited while the process lives\n"}, {Reload: true}, {Nil: true}}
+		if len(out)%2 == 1 {
+			seq = append(seq, RunOpt{Write: f, Text: p.Files[f]}, RunOpt{Reload: true}, RunOpt{})
+		}
+		out = append(out, &History{Template: "C01 same process (watch mode with an edit): " + fmt.Sprint(seq), Proj: p, Runs: seq, RunTarget: root})
+	}
+	return out
+}
+
+// reloadHistories (C02): the watch-mode sequence on one loaded project — a run, Reload(), a run with nil options — on an
+// unchanged tree: the run after the reload executes nothing and is not a forced one
+func reloadHistories(r *rng, nproj int) []*History {
+	var out []*History
+	for pi := 0; pi < nproj; pi++ {
+		p := genProj(r, 0)
+		root := p.topRoot()
+		for _, s := range [][]RunOpt{
+			{{Always: true}, {Reload: true}, {Nil: true}},
+			{{Nil: true}, {Reload: true}, {Nil: true}, {Reload: true}, {}},
+			{{Repl: true, Target: root, AlwaysSet: true, Always: true}, {Reload: true}, {Nil: true}},
+		} {
+			out = append(out, &History{Template: "C02 same process (watch mode): " + fmt.Sprint(s), Proj: p.clone(), Runs: s, RunTarget: root})
+		}
+	}
+	return out
+}
+
+// failThenRepairHistories (C03): earlier processes build the root; an input of T changes; then ONE process runs the
+// root while T's body fails for a reason that is no tracked input, and runs it again after the cause is gone
+func failThenRepairHistories(r *rng, n int) []*History {
+	var out []*History
+	for tries := 0; len(out) < n && tries < 10*n; tries++ {
+		p := genProj(r, 0)
+		g := &gen{r: r, p: p.clone(), h: &History{Proj: p, Template: "C03 same process: a body fails, the cause is repaired, run again"}, collected: map[string]bool{}}
+		t, d := g.chainPick()
+		if t == nil || len(t.Gens) == 0 || t.Always {
+			continue
+		}
+		root := g.rootOver(d)
+		g.add(g.build(root))
+		g.semanticEdit(t)
+		g.h.Runs, g.h.RunTarget = []RunOpt{{Nil: true, Fail: []string{t.Label()}}, {Nil: true}}, root
+		out = append(out, g.h)
 	}
 	return out
 }
